@@ -152,6 +152,12 @@ def generic_cases():
                           first="st_Gamma_udd4"))
     cases.append(dict(_cases.generic_KSin(4), Lambda=0.0, form="components",
                       matter="none", vacuum=False, gdet_first=False))
+    # memory limit below the size of the inputs / clean-up every other
+    # calculation (cache settings never change a value)
+    cases.append(dict(base, order=2, Lambda=0.2, form="components",
+                      cache_kw=dict(memory_threshold_inGB=1e-7)))
+    cases.append(dict(base, order=2, Lambda=0.0, form="tensors",
+                      cache_kw=dict(clear_cache_every_nbr_calc=2)))
     cases.append(dict(_cases.generic_FL_tiny(4), Lambda=0.0, form="components",
                       matter="Tdown4", vacuum=False, gdet_first=False))
     cases.append(dict(_cases.generic_FL_tiny(2), Lambda=0.1, form="tensors",
